@@ -7,18 +7,22 @@ Import ListNotations.
 Open Scope string_scope.
 
 (* whatever the owner's Config.dialect (cd) and type arguments are, the nested builder gets the
-   compiling builder's default dialect and dialect *)
-Theorem K14_passdown : forall dd d cd ta : kv,
-  nested_default_dialect dd d cd ta = Ok dd /\ nested_dialect dd d cd ta = Ok d.
+   compiling builder's default dialect; its dialect is None under a mixin (nailed) builder -- the
+   nested class is given its default method -- and the builder's dialect under a codec builder *)
+Theorem K14_passdown : forall dd d cd ta nailed : kv,
+  nested_default_dialect dd d cd ta nailed = Ok dd /\
+  nested_dialect dd d cd ta nailed = Ok (if k_truthy nailed then KNone else d).
 Proof. exact K14_passdown_lemma. Qed.
 Print Assumptions K14_passdown.
 
-Theorem K14_pass_dd : forall (dd d cd: option ns) (ta: kv),
-  nested_default_dialect (enc_ons dd) (enc_ons d) (enc_ons cd) ta = Ok (enc_ons (pass_dd dd d cd)).
+Theorem K14_pass_dd : forall (dd d cd: option ns) (ta: kv) (nailed: bool),
+  nested_default_dialect (enc_ons dd) (enc_ons d) (enc_ons cd) ta (KBool nailed) = Ok (enc_ons (pass_dd dd d cd)) /\
+  nested_dialect (enc_ons dd) (enc_ons d) (enc_ons cd) ta (KBool nailed) = Ok (enc_ons (pass_dialect nailed d)).
 Proof. exact K14_pass_dd_lemma. Qed.
 Print Assumptions K14_pass_dd.
 
-(* non-vacuity: an owner with Config.dialect = {omit_none: True} and no default dialect *)
+(* non-vacuity: a mixin owner with Config.dialect = {omit_none: True}, compiling under a call dialect *)
 Example K14_passdown_example :
-  nested_default_dialect KNone KNone (KNs [("omit_none", KBool true)]) (KTuple []) = Ok KNone.
-Proof. reflexivity. Qed.
+  nested_default_dialect KNone (KNs [("omit_none", KBool true)]) (KNs [("omit_none", KBool true)]) (KTuple []) (KBool true) = Ok KNone /\
+  nested_dialect KNone (KNs [("omit_none", KBool true)]) (KNs [("omit_none", KBool true)]) (KTuple []) (KBool true) = Ok KNone.
+Proof. split; reflexivity. Qed.
